@@ -265,8 +265,83 @@ LEAF = {"use-centred": el_use_centred, "line-partial": el_line_partial, "text-fo
 WRAP = {"g": el_g, "g-rotate": el_g2, "g-matrix": el_g3, "svg": el_svg, "a": el_a}
 
 
+# ---- table-driven documents: element x subset of its SVG attributes x value form
+# (p: position-like, s: size-like value; '*' marks attributes that are always written, because their omission runs into an open finding
+#  or into the documented reinterpretation of text)
+SVG_TABLE = {
+    "rect": ["x:p", "y:p", "width:s", "height:s", "rx:s", "ry:s"], "circle": ["cx:p", "cy:p", "r:s"], "ellipse": ["cx:p", "cy:p", "rx:s", "ry:s"],
+    "line": ["x1:p*", "y1:p*", "x2:p*", "y2:p*"], "image": ["x:p", "y:p", "width:s", "height:s"], "use": ["x:p", "y:p", "width:s", "height:s"],
+    "foreignObject": ["x:p", "y:p", "width:s", "height:s"], "text": ["x:p*", "y:p*", "dx:p", "dy:p", "rotate:p", "textLength:s"],
+    "linearGradient": ["x1:p", "y1:p", "x2:p", "y2:p"], "radialGradient": ["cx:p", "cy:p", "r:s", "fx:p", "fy:p"], "pattern": ["x:p", "y:p", "width:s", "height:s"],
+    "mask": ["x:p", "y:p", "width:s", "height:s"], "filter": ["x:p", "y:p", "width:s", "height:s"], "feFlood": ["x:p", "y:p", "width:s", "height:s"],
+    "feOffset": ["x:p", "y:p", "width:s", "height:s", "dx:p", "dy:p"], "marker": ["refX:p", "refY:p", "markerWidth:s", "markerHeight:s"],
+    "polyline": ["points:P*"], "polygon": ["points:P*"], "path": ["d:D*"], "svg": ["x:p", "y:p", "width:s", "height:s"],
+}
+PRESENTATION = ["stroke-width:s", "opacity:o", "font-size:s", "stroke-dasharray:L", "transform:T", "fill-opacity:o", "stroke-miterlimit:s"]
+
+
+def sys_doc(gseed, g):
+    rnd = random.Random(55000 + gseed)
+
+    def value(kind):
+        if kind == "P":
+            return " ".join(f"{g.p()}{rnd.choice([',', ' '])}{g.p()}" for _ in range(rnd.randint(2, 4)))
+        if kind == "D":
+            return f"M {g.p()} {g.p()} " + " ".join(rnd.choice([f"L {g.p()} {g.p()}", f"h {g.p()}", f"v {g.p()}", f"q 1 2 {g.p()} {g.p()}", "z", f"l {g.p()} 3", f"H {g.p()}", f"a 3 2 0 0 1 {g.p()} {g.p()}"]) for _ in range(rnd.randint(2, 5)))
+        if kind == "o":
+            return rnd.choice(["0.5", "1", "0.25", "0"])
+        if kind == "L":
+            return f"{g.s(1)} {rnd.choice(['2', '1.5'])}"
+        if kind == "T":
+            return rnd.choice([f"translate({g.p()} {g.p()})", f"rotate({g.p()})", f"scale({g.s()})", f"matrix(1 0 0 1 {g.p()} {g.p()})", f"skewX({g.p()})", f"translate({g.p()},{g.p()}) scale(2)"])
+        form = rnd.random()
+        if form < 0.72:
+            return g.p() if kind == "p" else g.s()
+        if form < 0.82:
+            return rnd.choice(["12.5", "0.125", "7.0625", "100", "0", "3.75"])
+        if form < 0.91:
+            return rnd.choice(["10mm", "2em", "1.5cm", "12px", "3pt", "0.5in"])
+        return rnd.choice(["50%", "100%", "12.5%", "0%"])
+
+    def element(depth):
+        name = rnd.choice(list(SVG_TABLE) + ["g", "g", "a", "defs"])
+        if name in ("g", "a", "defs") and depth < 2:
+            inner = "".join(element(depth + 1) for _ in range(rnd.randint(1, 3)))
+            extra = f' transform="{value("T")}"' if name == "g" and rnd.random() < 0.5 else (' href="#x"' if name == "a" else "")
+            return f"<{name}{extra}>{inner}</{name}>"
+        if name in ("g", "a", "defs"):
+            name = "rect"
+        attrs = []
+        if name in ("use", "image"):
+            attrs.append('href="#sysr"' if name == "use" else 'href="a.png"')
+        for spec in SVG_TABLE[name]:
+            an, kind = spec.split(":")
+            must = kind.endswith("*")
+            kind = kind.rstrip("*")
+            if must or rnd.random() < 0.7:
+                attrs.append(f'{an}="{value(kind)}"')
+        for spec in rnd.sample(PRESENTATION, rnd.randint(0, 2)):
+            an, kind = spec.split(":")
+            if an == "transform" and name in ("text", "linearGradient", "radialGradient", "pattern", "mask", "filter", "feFlood", "feOffset", "marker", "svg", "use"):
+                continue
+            attrs.append(f'{an}="{value(kind)}"')
+        rnd.shuffle(attrs)
+        if name == "text":
+            return f"<text {' '.join(attrs)}>label</text>"
+        if name == "svg":
+            return f"<svg {' '.join(attrs)}><rect width=\"1\" height=\"1\"/></svg>"
+        if name in ("linearGradient", "radialGradient") and rnd.random() < 0.5:
+            return f"<{name} {' '.join(attrs)}><stop offset=\"0\"/><stop offset=\"{value('o')}\"/></{name}>"
+        if rnd.random() < 0.15:
+            return f"<{name} {' '.join(attrs)}></{name}>"
+        return f"<{name} {' '.join(attrs)}/>"
+    return '<defs><rect id="sysr" width="2" height="3"/></defs>' + "".join(element(0) for _ in range(rnd.randint(3, 6)))
+
+
 def templates(tier, seed):
     tds = []
+    for gi in range(120 if tier == "quick" else 2000):
+        tds.append(dict(fam="sys", items=[], gseed=gi + 10000 * seed, root=("fragment" if gi % 7 == 3 else "svg")))
     for k in LEAF:
         tds.append(dict(fam="leaf", items=[k], root="svg"))
         tds.append(dict(fam="leaf", items=[k], root="fragment"))
@@ -287,7 +362,7 @@ def twins(tier, seed):
 
 def build(td, wrong=False):
     g = Gen()
-    inner = "".join(LEAF[k](g) for k in td["items"])
+    inner = sys_doc(td["gseed"], g) if td["fam"] == "sys" else "".join(LEAF[k](g) for k in td["items"])
     # ids must stay unique when a generator is used twice
     for w in td.get("wrap", []):
         inner = WRAP[w](g, inner)
@@ -331,7 +406,7 @@ def build(td, wrong=False):
                 obls.append(Obl(f"root.{a}-verbatim", PASS if ro.get(a) == v else FAIL, ground=True, note=f"{ro.get(a)!r} vs {v!r}"))
         obls += compare_outputs(o, e, wrong=wrong, skip_root=rooted, ground_tol=Fraction(501, 1000000))
         return obls
-    name = f"{td['fam']}/{'+'.join(td['items'])}/{'+'.join(td.get('wrap', []))}/{td['root']}"
+    name = f"{td['fam']}/{'+'.join(td['items'])}/{'+'.join(td.get('wrap', []))}/{td['root']}" + (f"/{td['gseed']}" if td["fam"] == "sys" else "")
     role = "C04/" + td["fam"]
     if not doc.startswith("<svg") and "<svg" in doc:
         role = "C04/nested-svg-in-fragment"     # role signature for known-finding matching
